@@ -172,6 +172,66 @@ def _del_macro_stmt(names):
     return f
 
 
+def _del_cfg_gated_stmt(keywords):
+    """Delete `#[cfg(...)]` attributes whose condition mentions one of `keywords`, together with the statement, block or
+    `if` they gate."""
+    def f(text):
+        n, out, i = 0, [], 0
+        rx = re.compile(r"#\[cfg\(")
+        while i < len(text):
+            j = _skip_noncode(text, i)
+            if j is not None:
+                out.append(text[i:j]); i = j
+                continue
+            m = rx.match(text, i)
+            if m:
+                close = match_close(text, m.end() - 1, "(", ")")
+                cond = text[m.end():close]
+                k = close + 1
+                while k < len(text) and text[k] in " \t":
+                    k += 1
+                if k < len(text) and text[k] == "]" and any(kw in cond for kw in keywords):
+                    k += 1
+                    while k < len(text) and text[k] in " \t\r\n":
+                        k += 1
+                    # the gated statement: a block, an `if ... { }` (no else), or an expression statement up to `;`
+                    if text[k] == "{":
+                        k = match_close(text, k) + 1
+                    else:
+                        is_if = re.match(r"if\b", text[k:]) is not None
+                        depth = 0
+                        while k < len(text):
+                            q = _skip_noncode(text, k)
+                            if q is not None:
+                                k = q
+                                continue
+                            c = text[k]
+                            if c in "([":
+                                depth += 1
+                            elif c in ")]":
+                                depth -= 1
+                            elif c == "{" and depth == 0:
+                                k = match_close(text, k)
+                                if is_if:
+                                    k += 1
+                                    break
+                            elif c == ";" and depth == 0:
+                                k += 1
+                                break
+                            k += 1
+                    # eat the rest of the line
+                    while k < len(text) and text[k] in " \t":
+                        k += 1
+                    if k < len(text) and text[k] == "\n":
+                        k += 1
+                    i = k
+                    n += 1
+                    continue
+            out.append(text[i]); i += 1
+        return "".join(out), n
+    return f
+
+
 def _re_rule(pattern, repl, flags=re.M):
     def f(text):
         return re.subn(pattern, repl, text, flags=flags)
@@ -193,12 +253,27 @@ RULES = {
     "drop_mutex_lock": (_re_rule(r"^[ \t]*let\s+(?:mut\s+)?sync\s*=\s*self\.sync\.(?:lock|get_mut)\(\)\.unwrap\(\);\s*\n", ""),
                         "the method is re-homed on the mutex-protected struct; mutex acquisition is NOT verified"),
     "sync_to_self": (_re_rule(r"\bsync\.", "self."), "the method is re-homed on the mutex-protected struct"),
-    "self_to_mut_self": (_re_rule(r"\(&self\b", "(&mut self"), "re-homed mutating method takes the protected struct by &mut"),
+    "self_to_mut_self": (_re_rule(r"\(\s*&self\b", "(&mut self"), "re-homed mutating method takes the protected struct by &mut"),
     "impl_iter_to_hashset": (_re_rule(r"->\s*impl\s+IntoIterator<Item\s*=\s*ObjectReference>", "-> HashSet<ObjectReference>"),
                              "the concrete type behind `impl IntoIterator` (what the body returns)"),
     "std_mem_take_path": (_re_rule(r"\bstd::mem::take\b", "core::mem::take"), "same function, path for which the assumed specification is declared"),
     "drop_const": (_re_rule(r"\bconst\s+fn\b", "fn"), "Verus exec functions need not be const"),
     "drop_unsafe_block": (_re_rule(r"\bunsafe\s*\{\s*(Address::from_usize\([^{}]*\))\s*\}", r"\1"), "from_usize is a plain constructor in the extracted Address"),
+    # ---- LargeObjectSpace (unit `los`) ----
+    "drop_cfg_nondefault": (_del_cfg_gated_stmt(['feature = "vo_bit"', "debug_assertions"]),
+                            "statements compiled only with the non-default vo_bit feature or only in debug builds are outside the verified (default-feature, release-semantics) configuration"),
+    "los_meta_calls": (_re_rule(r"VM::VMObjectModel::LOCAL_LOS_MARK_NURSERY_SPEC\s*\.\s*(load_atomic|store_atomic|compare_exchange_metadata)::<VM,\s*u8>\(", r"self.meta.\1("),
+                       "the LOS mark/nursery metadata table (global side table or header bits, reached through the VM's spec constant) becomes the explicit field `meta`, "
+                       "whose accessors carry the contract that C20/C23 discharge on the real accessors"),
+    "los_log_calls": (_re_rule(r"VM::VMObjectModel::GLOBAL_LOG_BIT_SPEC\s*\.\s*(\w+)::<VM(?:,\s*u8)?>\(", r"self.log_bits.\1("),
+                      "the global log-bit table becomes the explicit field `log_bits` (opaque: no contract, distinct from `meta`)"),
+    "drop_mask_ordering_args": (_re_rule(r"\bNone\s*,\s*|\bOrdering::\w+\s*,?\s*", ""),
+                                "the optional-mask argument (always None here) and memory orderings do not exist in the sequential contract of the accessors"),
+    "los_struct_header": (_re_rule(r"struct\s+LargeObjectSpace<VM:\s*VMBinding>\s*\{", "struct LargeObjectSpace {\n    pub meta: LosMeta,\n    pub log_bits: LogBits,"),
+                          "the VM type parameter only selects the metadata spec constants; the two metadata tables become explicit fields"),
+    "los_struct_fields": (_re_rule(r"CommonSpace<VM>", "CommonSpaceFlags"), "only the boolean flags of CommonSpace are read by the extracted functions"),
+    "los_struct_fields2": (_re_rule(r"FreeListPageResource<VM>", "PageResourceStub"), "the page resource is not touched by the extracted functions (opaque)"),
+    "los_struct_fields3": (_re_rule(r"\bTreadMill\b", "TreadMillSync"), "the treadmill's methods are re-homed on its mutex-protected struct (unit treadmill)"),
 }
 
 
@@ -402,6 +477,23 @@ def run_unit(name, repo, outdir, timeout_s=600):
         if res["verified"] == 0:
             res["reason"] = "zero obligations"
             return res
+        # vacuity guard: the unit's canaries (functions with the same preconditions / axioms in scope and `ensures false`)
+        # must each FAIL; a canary that verifies means contradictory assumptions, and the run is undecided
+        canaries = unit.get("canaries", "")
+        names = re.findall(r"\bfn\s+(canary_\w+)", canaries)
+        if names:
+            cpath = os.path.join(outdir, name + "_canary.rs")
+            open(cpath, "w").write(text.replace("\n} // verus!\nfn main() {}\n", "\n// ---- vacuity canaries: every function below must fail ----\n" + canaries + "\n} // verus!\nfn main() {}\n"))
+            try:
+                cp = subprocess.run(["verus", cpath, "--output-json", "--rlimit", str(unit.get("rlimit", 30))], stdout=subprocess.PIPE, stderr=subprocess.PIPE, text=True, timeout=timeout_s, cwd=outdir)
+                cjs = json.loads(cp.stdout[cp.stdout.index("{"):]).get("verification-results", {})
+            except Exception as e:
+                res["reason"] = "canary run failed: %r" % (e,)
+                return res
+            res["canaries"] = {"functions": names, "failed_as_required": cjs.get("errors", 0), "verified_with_canaries": cjs.get("verified", 0)}
+            if cjs.get("encountered-vir-error") or cjs.get("errors", 0) != len(names) or cjs.get("verified", 0) != res["verified"]:
+                res["reason"] = "vacuity: %d of %d canaries failed as required (a canary that verifies means contradictory assumptions)" % (cjs.get("errors", 0), len(names))
+                return res
         res["verdict"] = "ok"
         return res
     # classify errors
